@@ -80,7 +80,9 @@ fn statement_strategy() -> BoxedStrategy<Statement> {
         let mut acc = 0u64;
         for (i, (lines, cents, own, dp)) in hs.into_iter().enumerate() {
             // allocation in tenths of a percent; the last one takes the remainder so they add up to 100.0
-            let tenths = if n == 1 { 1000 } else if i + 1 == n { 1000u64.saturating_sub(acc) } else { ((cents as u64 * 1000) / total_cents.max(1)).max(1) };
+            // a quarter of the multi-holding tables are dominated by one holding (any position) that rounds to 100.0 while the others round to 0.0
+            let dominant = n >= 2 && (m / 64) % 4 == 0;
+            let tenths = if n == 1 { 1000 } else if dominant { if i == (m / 256) as usize % n { 1000 } else { 0 } } else if i + 1 == n { 1000u64.saturating_sub(acc) } else { ((cents as u64 * 1000) / total_cents.max(1)).max(1) };
             acc += tenths;
             let value = match dp { 0 => format!("{}.{:02}", cents / 100, cents % 100), 1 => format!("{}.{}", cents / 100, (cents % 100) / 10), _ => format!("{}.0", cents / 100) };
             // first line must start with a non-numeric token after the bullet (as statements do)
@@ -111,6 +113,7 @@ fn check_table(st: &Statement, obs: &mut Obs) -> Verdict {
     if res.month_date.month() != m || res.month_date.day() != st.month.1 || res.month_date.year() != st.month.2 { return Verdict::Fail(format!("month {:?} returned, {:?} stated", res.month_date, st.month)); }
     if st.holdings.iter().any(|h| h.desc_lines.len() >= 2 && h.desc_lines.iter().any(|l| l.chars().any(|c| c.is_ascii_digit()))) { obs.nt("multi-line-description-with-digits"); }
     if st.holdings.len() == 1 { obs.class("single-100%-holding"); }
+    if st.holdings.len() >= 2 && st.holdings.iter().skip(1).any(|h| h.alloc == "100.0" && h.figures_on_own_line) { obs.nt("100%-holding-not-listed-first-with-figures-on-own-line"); }
     if st.holdings.is_empty() { obs.class("no-holdings"); }
     if !unambiguous { obs.class("ambiguous-but-parsed-correctly"); }
     if st.month_on_earlier_page { obs.class("month-on-earlier-page"); }
@@ -208,10 +211,10 @@ fn exhaustive_chunks(tier: Tier, _seed: u64, idx: u64, of: u64, stats: &mut Stat
 }
 
 pub fn def() -> PropDef {
-    let mut d = PropDef::new("C20", "(table) generated Questrade statements: 0-12 holdings with 1-4 description lines built from words, dates, percentages, codes and bare numbers, figures on the last description line or on their own line, a single 100% holding, thousands separators, values with 0-2 decimals, surrounding page text containing numbers, the month line on the same or an earlier page, 0-2 unrelated pages before; parse_statement_text must return exactly the listed holdings in order with allocation, value, total and month. Cases are labelled unambiguous / ambiguous by a stated predicate. (pages) page counts 0-14 x hint groups over 0..17 (out of range, duplicated, unsorted, empty): safe_page_chunks_with_remainder_pn, then LazyPageTextVec::optimized_iter over a real PDF generated with lopdf (page k carries 'THIS IS PAGE k'); every yielded page must exist, carry its own text, and the set of yielded pages must be 1..n; plus an exhaustive sweep of the chunk helper for n <= 6 (9 thorough) and hints of <= 2 groups of <= 3 entries. Non-trivial = table with a multi-line description containing a digit; n >= 2 with a hint that is out of range, duplicated or descending. Distinct = distinct case content.");
+    let mut d = PropDef::new("C20", "(table) generated Questrade statements: 0-12 holdings with 1-4 description lines built from words, dates, percentages, codes and bare numbers, figures on the last description line or on their own line, a single 100% holding, a 100.0% holding in any position among 0.0% ones, thousands separators, values with 0-2 decimals, surrounding page text containing numbers, the month line on the same or an earlier page, 0-2 unrelated pages before; parse_statement_text must return exactly the listed holdings in order with allocation, value, total and month. Cases are labelled unambiguous / ambiguous by a stated predicate. (pages) page counts 0-14 x hint groups over 0..17 (out of range, duplicated, unsorted, empty): safe_page_chunks_with_remainder_pn, then LazyPageTextVec::optimized_iter over a real PDF generated with lopdf (page k carries 'THIS IS PAGE k'); every yielded page must exist, carry its own text, and the set of yielded pages must be 1..n; plus an exhaustive sweep of the chunk helper for n <= 6 (9 thorough) and hints of <= 2 groups of <= 3 entries. Non-trivial = table with a multi-line description containing a digit, or a 100.0% holding not listed first with its figures on their own line; n >= 2 with a hint that is out of range, duplicated or descending. Distinct = distinct case content.");
     d.assumptions = vec!["the 'documented layout' is the one in the parser's doc comment and unit tests: bullet on the first description line, figures at the end of the last description line or alone on the next line, total row '100.0 <value>'", "real PDF extraction variance is represented only by lopdf-generated single-line pages"];
-    d.subs.push(Box::new(Sub::<Statement> { name: "table", cases_quick: 30_000, cases_thorough: 1_000_000, strategy: Box::new(|_| statement_strategy()), to_json: Statement::to_json, from_json: Statement::from_json, check: check_table }));
-    d.subs.push(Box::new(Sub::<PageCase> { name: "pages", cases_quick: 600, cases_thorough: 20_000, strategy: Box::new(|_| page_strategy()), to_json: |c| json::object! { n: c.n, hints: c.hints.iter().map(|g| JsonValue::Array(g.iter().map(|x| (*x).into()).collect())).collect::<Vec<_>>() }, from_json: |v| Some(PageCase { n: v["n"].as_u32()?, hints: v["hints"].members().map(|g| g.members().filter_map(|x| x.as_u32()).collect()).collect() }), check: check_pages }));
+    d.subs.push(Box::new(Sub::<Statement> { name: "table", cases_quick: 60_000, cases_thorough: 1_000_000, strategy: Box::new(|_| statement_strategy()), to_json: Statement::to_json, from_json: Statement::from_json, check: check_table }));
+    d.subs.push(Box::new(Sub::<PageCase> { name: "pages", cases_quick: 1_200, cases_thorough: 20_000, strategy: Box::new(|_| page_strategy()), to_json: |c| json::object! { n: c.n, hints: c.hints.iter().map(|g| JsonValue::Array(g.iter().map(|x| (*x).into()).collect())).collect::<Vec<_>>() }, from_json: |v| Some(PageCase { n: v["n"].as_u32()?, hints: v["hints"].members().map(|g| g.members().filter_map(|x| x.as_u32()).collect()).collect() }), check: check_pages }));
     d.extra = Some(exhaustive_chunks);
     d
 }
